@@ -173,6 +173,48 @@ def conc_model_phase(tier, wd, info):
     return dict(configurations=n, mutants=killed)
 
 
+def conc_message_flow(sc, evs, wd, name, corrupt=False):
+    """Layer D: the messages the instances sent each other during concurrent generations (every send and every return, as the harness
+    network saw them) must be a behaviour of DkgConc.tla (DkgConcTrace: TLC places the handlers' silent steps).  Returns None if the
+    trace is explained, else a short description (DRIFT)."""
+    rank = {i_: n_ + 1 for n_, i_ in enumerate(sorted(sc["ids"]))}      # (TLC's integers are 32 bits wide: identifiers by rank, order kept)
+    gens = []
+    for gi, g_ in enumerate(sc["conc_gens"]):
+        parts = []
+        for e in evs:
+            if e["ev"] == "Msg" and e["type"] == "prepare" and e["from"] == g_["initiator"] and e.get("account") == g_["account"] and e["to"] not in parts:
+                parts.append(e["to"])
+        gens.append(dict(g="g%d" % gi, name=g_["account"], init=rank[g_["initiator"]], parts=[rank[p_] for p_ in (parts or [g_["initiator"]])]))
+    if len({(g_["init"], g_["name"]) for g_ in gens}) != len(gens) or any(e["ev"] == "ConcOutcome" and e["hung"] for e in evs):
+        return None
+    lines = [dict(ev="Config", type="", I=sorted(rank.values()), gens=gens, ok=True, account="", g="", to=0, **{"from": 0})]
+    for e in evs:
+        if e["ev"] in ("Msg", "MsgDone") and e["type"] in ("prepare", "execute", "contribute", "commit"):
+            lines.append(dict(ev=e["ev"], type=e["type"], to=rank[e["to"]], account=e.get("account", ""), ok=bool(e.get("ok", True)), g="", **{"from": rank[e["from"]]}))
+    for e in evs:
+        if e["ev"] == "ConcOutcome":
+            lines.append(dict(ev="Outcome", type="", to=0, account="", ok=bool(e["ok"]), g="g%d" % e["g"], **{"from": 0}))
+    if corrupt:
+        # binding self-test: a contribution sent DOWNWARDS (sender and receiver swapped) is no behaviour of the model
+        for ln in lines:
+            if ln["ev"] == "Msg" and ln["type"] == "contribute":
+                ln["from"], ln["to"] = ln["to"], ln["from"]
+                break
+        else:
+            return "no contribution message to corrupt"
+    rundir = os.path.join(wd, name)
+    os.makedirs(rundir, exist_ok=True)
+    with open(os.path.join(rundir, "trace.ndjson"), "w") as fh:
+        for ln in lines:
+            fh.write(json.dumps(ln) + "\n")
+    r = tlc("DkgConcTrace", make_cfg(dict(TraceFile="trace.ndjson"), constraint="HighWater", postcondition="Accepted"), wd, name=name, workers=1, timeout=300, dump_trace=False)
+    if r.ok:
+        return None
+    m = re.findall(r'"HIGHWATER", (\d+)', r.out)
+    at = int(m[-1]) if m else None
+    return "message flow of %s is not a behaviour of DkgConc.tla (explained up to line %s of %d: %s)" % (sc["id"], at, len(lines), lines[at - 1] if at and at <= len(lines) else r.error or r.violated)
+
+
 def conc_gens_phase(tier, seed, wd, info, verdict):
     """Two or three generations requested at the same time of different instances of one real in-process cluster (different names
     and the same name; full and partial overlap; messages delayed by seeded random times so that the interleavings vary).  What each
@@ -241,6 +283,18 @@ def conc_gens_phase(tier, seed, wd, info, verdict):
                 drift.append("%s: a generation failed although no other generation used its name: %s" % (gid, o.get("message", "")))
         if crashed:
             drift.append("%s: instance(s) %s died" % (sc["id"], crashed))
+    # layer D: the message flow of some of the in-process runs against DkgConc.tla
+    flows = 0
+    for sc in [s_ for s_ in scs if "-bin-" not in s_["id"]][::(4 if tier == "quick" else 2)][:(5 if tier == "quick" else 30)]:
+        d_ = conc_message_flow(sc, by[sc["id"]], wd, "DkgConcTrace_" + sc["id"])
+        flows += 1
+        if d_:
+            drift.append(d_)
+    selftest = None
+    for sc in [s_ for s_ in scs if "-bin-" not in s_["id"]][:1]:
+        selftest = conc_message_flow(sc, by[sc["id"]], wd, "DkgConcTrace_selftest", corrupt=True) is not None
+        if not selftest:
+            drift.append("binding self-test: a contribution sent to a lower identifier was accepted by DkgConcTrace")
     if nok < 6:
         raise Inconclusive("only %d concurrent generations succeeded: the agreement check would be vacuous" % nok)
     ok, violated, pos, extra = validate("DkgTrace", lines, ["Agreement", "ThresholdRule"], wd, name="DkgTraceConc")
@@ -256,7 +310,8 @@ def conc_gens_phase(tier, seed, wd, info, verdict):
     if drift and not verdict.violations:
         # the model of concurrent generations no longer describes the code; nothing of this is a statement of C12
         print("DRIFT (DkgConc.tla): " + "; ".join(drift[:4]))
-    return dict(scenarios=len(scs), of_which_on_clusters_of_dirk_binaries=len(bscs), generations=nok + nfail, succeeded=nok, failed=nfail, drift=drift[:10])
+    return dict(scenarios=len(scs), of_which_on_clusters_of_dirk_binaries=len(bscs), generations=nok + nfail, succeeded=nok, failed=nfail,
+                message_flows_validated_against_DkgConc=flows, corrupted_flow_rejected=selftest, drift=drift[:10])
 
 
 # ------------------------------------------------------------------------------------------ C12
